@@ -27,8 +27,10 @@ class SimResult:
 
 
 def run_sim(exe, prog, mode="parallel", threads=2, ckpt=0, gvt=1000, tend=0, stats="-", displog="-",
-            trace_file=None, trace_mask=0, watchdog=20, timeout=60, ranks=1):
+            trace_file=None, trace_mask=0, watchdog=20, timeout=60, ranks=1, delay=None):
     env = {"VERIF_WATCHDOG": str(watchdog)}
+    if delay:
+        env["VERIF_DELAY"] = delay
     if trace_file:
         env["VERIF_TRACE_FILE"] = trace_file
         env["VERIF_TRACE_MASK"] = str(trace_mask)
